@@ -106,6 +106,9 @@ func (c05) Run(c *Ctx, i int) CaseResult {
 	if r.Intn(4) == 0 {
 		in.ListLen = 11 + r.Intn(8) // more simultaneous results than the result channel holds
 	}
+	if r.Intn(12) == 0 {
+		in.ListLen = []int{33, 64, 65, 100, 129, 257}[r.Intn(6)] // long lists: whatever is done per entry is done many times at once
+	}
 	res := CaseResult{ID: fmt.Sprintf("gen:%d", i)}
 	// L2: the stitching model against executorInsertObject (40 generated insertion sequences per case)
 	insFeat := map[string]bool{}
@@ -262,7 +265,7 @@ func runWith(f *Fed, in FedInput, timeout time.Duration) Outcome {
 				ch <- Outcome{Panicked: r}
 			}
 		}()
-		rc := &gateway.RequestContext{Context: context.Background(), Query: in.Query, OperationName: in.OpName, Variables: in.Vars}
+		rc := &gateway.RequestContext{Context: context.Background(), Query: in.Query, OperationName: in.OpName, Variables: in.Vars, CacheKey: f.CacheKey}
 		plans, err := f.GW.GetPlans(rc)
 		if err != nil {
 			ch <- Outcome{Err: err, PlanErr: true}
